@@ -36,7 +36,7 @@ def parseSection (s : String) : Option Section :=
            rtpmaps := ← listOfHex rtpmaps, extmaps := ← listOfHex extmaps, addr4 := a4 = "1", addrAny := aa = "1", setup }
   | _ => none
 
-/-- `ty|id|eq|fp|groups|sec;sec…` or a back reference `@id` to a description already seen on this line -/
+/-- `ty|id|eq|fp|groups|sessionSetup|sec;sec…` or a back reference `@id` to a description already seen on this line -/
 def parseDesc (seen : List Desc) (s : String) : Option Desc :=
   match s.toList with
   | '@' :: r => do
@@ -44,11 +44,12 @@ def parseDesc (seen : List Desc) (s : String) : Option Desc :=
     seen.find? (·.id = id)
   | _ =>
     match s.splitOn "|" with
-    | [ty, id, eq, fp, groups, secs] => do
+    | [ty, id, eq, fp, groups, ssu, secs] => do
       let sections ← if secs = "_" then some [] else (secs.splitOn ";").mapM parseSection
       let groups ← if groups = "_" then some [] else
         (groups.splitOn "+").mapM (fun g => if g = "~" then some none else (strOfHex g).map some)
-      some { id := ← id.toNat?, ty := ← parseTy ty, eqKey := ← eq.toNat?, fp := ← parseFp fp, sections, groups }
+      let sessSetup ← if ssu = "~" then some none else (strOfHex ssu).map some
+      some { id := ← id.toNat?, ty := ← parseTy ty, eqKey := ← eq.toNat?, fp := ← parseFp fp, sections, groups, sessSetup }
     | _ => none
 
 def parseCall (seen : List Desc) (t : String) : Option Call :=
